@@ -492,10 +492,86 @@ func runC06(c *an.Ctx) {
 	limit, ok1 := intConst("ChunkSizeLimit")
 	blockLimit, ok2 := intConst("BlockSizeLimit")
 	budget, ok3 := intConst("ChunkOverheadBudget")
-	buzMin, ok4 := intConst("buzMin")
-	buzMax, ok5 := intConst("buzMax")
-	if !c.Need(ok1 && ok2 && ok3 && ok4 && ok5, "chunker constants ChunkSizeLimit, BlockSizeLimit, ChunkOverheadBudget, buzMin, buzMax") {
+	if !c.Need(ok1 && ok2 && ok3, "chunker constants ChunkSizeLimit, BlockSizeLimit, ChunkOverheadBudget") {
 		return
+	}
+	// Buzhash parameters by role (the constants are unexported): the buffer size is the constant the []byte field of
+	// Buzhash is allocated with; the minimum chunk size is the constant the buffered byte count (carried + read) is
+	// compared with after a short read.
+	var fBuzBuf, fBuzN *types.Var
+	if bt := p.Named(ck, "Buzhash"); bt != nil {
+		if st, ok := bt.Underlying().(*types.Struct); ok {
+			for i := 0; i < st.NumFields(); i++ {
+				f := st.Field(i)
+				if sl, ok := f.Type().Underlying().(*types.Slice); ok {
+					if b, ok := sl.Elem().Underlying().(*types.Basic); ok && b.Kind() == types.Uint8 {
+						fBuzBuf = f
+					}
+				}
+				if b, ok := f.Type().Underlying().(*types.Basic); ok && b.Kind() == types.Int {
+					fBuzN = f
+				}
+			}
+		}
+	}
+	_ = fBuzN
+	var buzMin, buzMax *big.Int
+	if fBuzBuf != nil {
+		for _, fn := range p.PkgFuncs(ck) {
+			for _, st := range an.FieldStores(fn, fBuzBuf) {
+				var lenV ssa.Value
+				if call, ok := an.IsCallTo(st.Val, an.M("github.com/libp2p/go-buffer-pool", "", "Get")); ok {
+					lenV = call.Call.Args[0]
+				} else if ms, ok := st.Val.(*ssa.MakeSlice); ok {
+					lenV = ms.Len
+				}
+				if k, ok := an.XBInt64(lenV); ok && lenV != nil {
+					if buzMax == nil || big.NewInt(k).Cmp(buzMax) > 0 {
+						buzMax = big.NewInt(k)
+					}
+				}
+			}
+		}
+		for _, fn := range p.Methods(ck, "Buzhash") {
+			// any read from the source: a call with an io.Reader operand that returns (int, error)
+			var reads []ssa.CallInstruction
+			for _, call := range an.AllCalls(fn) {
+				sig := call.Common().Signature()
+				if sig == nil || sig.Results().Len() != 2 || !c06IsInt(sig.Results().At(0).Type()) || !an.IsErrorType(sig.Results().At(1).Type()) {
+					continue
+				}
+				ops := append([]ssa.Value{}, call.Common().Args...)
+				if call.Common().IsInvoke() {
+					ops = append(ops, call.Common().Value)
+				}
+				for _, o := range ops {
+					if an.TypeIs(o.Type(), "io", "Reader") {
+						reads = append(reads, call)
+						break
+					}
+				}
+			}
+			for _, rd := range reads {
+				ns := an.Result(rd, 0)
+				for _, r := range an.XBEdgeRels(fn) {
+					k, isK := an.XBInt64(r.Y)
+					b, isAdd := r.X.(*ssa.BinOp)
+					if !isK || !isAdd || b.Op != token.ADD || (r.Op != token.LSS && r.Op != token.GEQ) {
+						continue
+					}
+					for _, n := range ns {
+						if b.X == n || b.Y == n {
+							buzMin = big.NewInt(k)
+						}
+					}
+				}
+			}
+		}
+	}
+	haveBuz := c.Need(buzMin != nil && buzMax != nil, "Buzhash parameters by role: constant buffer allocation of the []byte field and the minimum-chunk constant compared with carried+read")
+	if !haveBuz {
+		// keep the other obligations running with neutral values; the Buzhash constant facts are skipped
+		buzMin, buzMax = big.NewInt(32), new(big.Int).Set(limit)
 	}
 	// window size of the Rabin library (unexported constant): scope lookup when
 	// the dependency is loaded from source, else the length of Chunker.window.
@@ -724,7 +800,7 @@ func runC06(c *an.Ctx) {
 						}
 					}
 					nO1++
-					pname := g.Name() + "(" + g.Params[ai].Name() + ")"
+					pname := g.Name() + fmt.Sprintf("(arg%d)", ai) // positional: parameter names are local identifiers
 					sort.Strings(badLo)
 					sort.Strings(badHi)
 					c.Check(len(badLo) == 0, "O1", "R-TAINT", an.FuncName(fn), pname+">=min", call.Pos(),
@@ -747,7 +823,7 @@ func runC06(c *an.Ctx) {
 		"ChunkSizeLimit=BlockSizeLimit-ChunkOverheadBudget", "0 < ChunkSizeLimit = BlockSizeLimit-ChunkOverheadBudget < BlockSizeLimit",
 		fmt.Sprintf("ChunkSizeLimit=%s BlockSizeLimit=%s ChunkOverheadBudget=%s: a maximal chunk plus framing no longer fits a block", limit, blockLimit, budget))
 	cmpOK(buzMin.Cmp(big.NewInt(32)) >= 0 && buzMin.Cmp(buzMax) < 0 && buzMax.Cmp(limit) <= 0,
-		"32<=buzMin<buzMax<=ChunkSizeLimit", "32 <= buzMin < buzMax <= ChunkSizeLimit",
+		"buzhash:32<=min<buffer<=ChunkSizeLimit", "32 <= Buzhash minimum < Buzhash buffer size <= ChunkSizeLimit",
 		fmt.Sprintf("buzMin=%s buzMax=%s ChunkSizeLimit=%s: Buzhash chunks can exceed the limit or the 32-byte window does not fit", buzMin, buzMax, limit))
 	// DefaultBlockSize initialiser
 	foundInit := false
@@ -778,8 +854,8 @@ func runC06(c *an.Ctx) {
 	}
 	c.Need(foundInit, "constant initialiser of chunker.DefaultBlockSize")
 	// buffer of Buzhash allocated with buzMax
-	fBuf := p.Field(ck, "Buzhash", "buf")
-	if c.Need(fBuf != nil, "Buzhash.buf") {
+	fBuf := fBuzBuf
+	if c.Need(fBuf != nil, "[]byte field of Buzhash") {
 		n := 0
 		for _, fn := range fns {
 			for _, st := range an.FieldStores(fn, fBuf) {
@@ -795,11 +871,11 @@ func runC06(c *an.Ctx) {
 				} else if ms, ok2 := st.Val.(*ssa.MakeSlice); ok2 {
 					k, okK = an.XBInt64(ms.Len)
 				}
-				c.Check(okK && big.NewInt(k).Cmp(buzMax) == 0, "O2", "R-CONST", an.FuncName(fn), "Buzhash.buf=alloc(buzMax)", st.Pos(),
+				c.Check(okK && big.NewInt(k).Cmp(buzMax) == 0, "O2", "R-CONST", an.FuncName(fn), "buzhash-buffer=alloc(max-const)", st.Pos(),
 					"Buzhash buffer has exactly buzMax bytes (upper bound of a chunk)", fmt.Sprintf("Buzhash buffer allocated with %d (known=%v), not buzMax=%s: the maximum chunk size is no longer buzMax", k, okK, buzMax))
 			}
 		}
-		c.Min("O2 non-nil stores to Buzhash.buf", n, 1)
+		c.Min("O2 non-nil stores to the Buzhash buffer field", n, 1)
 	}
 	// thorough: every store into the global DefaultBlockSize anywhere
 	if c.Tier == "thorough" {
@@ -1045,7 +1121,20 @@ func runC06(c *an.Ctx) {
 					c.Check(okHigh, "O5", "R-FLOW", an.FuncName(fn), "carry-over-ends-at-buffered", cv.Pos(),
 						"carry-over ends at carried+read bytes", "the carry-over copy does not end at (carried + bytes read): trailing bytes are dropped or stale bytes re-emitted")
 					// the count of carried bytes is the result of that copy
-					fN := p.Field(ck, T.Obj().Name(), "n")
+					// the carried-count field: the unique int field of the splitter type
+					var fN *types.Var
+					if st, ok := T.Underlying().(*types.Struct); ok {
+						nInt := 0
+						for i := 0; i < st.NumFields(); i++ {
+							if b, ok := st.Field(i).Type().Underlying().(*types.Basic); ok && b.Kind() == types.Int {
+								fN = st.Field(i)
+								nInt++
+							}
+						}
+						if nInt != 1 {
+							fN = nil
+						}
+					}
 					if fN != nil {
 						stored := false
 						for _, st := range an.FieldStores(cr.home, fN) {
